@@ -135,11 +135,15 @@ class Run:
         self.lend = sc.get("lend")
         self.init = {k: D(v) for k, v in sc["init"].items()}
         self.opening_debt = {k: -v for k, v in self.init.items() if v < 0}
+        self.last_fees: Dict[str, Dict[str, D]] = {}
+        self._viol_count: collections.Counter = collections.Counter()
 
     # ------------------------------------------------------------------------------------
     def v(self, prop: str, kind: str, msg: str, mechanism: str = "") -> None:
         self.stats[f"viol_{prop}"] += 1
-        if len(self.viol) < 40:
+        # bounded per (property, kind): a noisy monitor of one property must not crowd out the others
+        self._viol_count[(prop, kind)] += 1
+        if self._viol_count[(prop, kind)] <= 4 and len(self.viol) < 400:
             self.viol.append(Violation(prop, kind, msg, scenario=self.sc, mechanism=mechanism))
 
     def pair_prec(self, pname: str) -> Tuple[int, int]:
@@ -848,12 +852,15 @@ class Run:
             if self.prev is not None and oi.amount_filled < oi.amount:
                 self.stats["partial_fills"] += 1
             self.check_fill(oid, m, ev.when, db, dq, df, oi)
-            net = {b: (db if buy else -db), qs: ((-dq if buy else dq) - df)}
+            lf = self.last_fees.get(oid, {})
+            dfee = {k: val - lf.get(k, ZERO) for k, val in oi.fees.items()}
+            net = {b: (db if buy else -db) - dfee.get(b, ZERO), qs: (-dq if buy else dq) - dfee.get(qs, ZERO)}
             for sym, n in net.items():
                 if n < 0 and sym in self.rem.get(oid, {}):
                     self.rem[oid][sym] = max(ZERO, self.rem[oid][sym] + n)
         elif dq != 0 or df != 0:
             self.v("C04", "quote_or_fee_without_base", f"{oid}: base delta 0 but quote {dq} fee {df}")
+        self.last_fees[oid] = dict(oi.fees)
         if not oi.is_open:
             self.rem[oid] = {}
 
@@ -1027,6 +1034,27 @@ class Run:
                            f"{s}: {snap.hold(s)} on hold, open orders' remaining reservations sum to "
                            f"{exp_hold.get(s, ZERO)} at {where}", mechanism=self._classify_stuck_hold(snap))
                     break
+        else:
+            # the event log lags behind the polled states (e.g. the exchange failed between booking a fill and
+            # reporting it): a floor of every open order's remaining reservation still follows from the polled state
+            # alone - the initial reservation minus everything the order has spent so far
+            self.stats["shadow_hold_floor_checks"] += 1
+            floor: Dict[str, D] = collections.defaultdict(D)
+            for i in exp_open:
+                m = self.meta.get(i)
+                o = snap.orders[i]
+                if m is None or not m.get("R"):
+                    continue
+                b_, q_ = m["pair"].split("/")
+                if m["side"] == "buy" and q_ in m["R"]:
+                    floor[q_] += max(ZERO, m["R"][q_] - o.quote_amount_filled - o.fees.get(q_, ZERO))
+                elif m["side"] == "sell" and b_ in m["R"]:
+                    floor[b_] += max(ZERO, m["R"][b_] - o.amount_filled - o.fees.get(b_, ZERO))
+            for s, val in floor.items():
+                if snap.hold(s) < val:
+                    self.v("C02", "fill_paid_with_funds_reserved_for_other_orders",
+                           f"{s}: only {snap.hold(s)} left on hold while the open orders' reservations minus what they "
+                           f"have spent sum to at least {val} at {where}")
         # ---- C11: loans
         if not snap.loans_stale and not (self.prev is not None and self.prev.loans_stale):
             self.check_loans(snap, interval)
@@ -1051,7 +1079,7 @@ class Run:
                        f"{m['kind']} {m['side']} traded quote {o.quote_amount_filled}: fees {got}, reference {expf} "
                        f"(pct {self.fee[0]} min {self.fee[1]} precision {qp})")
         else:
-            if any(o.fees.values()):
+            if any(o.fees.values()) and not self.sc.get("base_fee_pct"):
                 self.v("C09", "fee_without_trade_or_scheme", f"{oid}: fees {o.fees} quote filled {o.quote_amount_filled}")
         if any(val < 0 for val in o.fees.values()):
             self.v("C09", "negative_fee", f"{oid}: {o.fees}")
@@ -1324,7 +1352,7 @@ class Run:
 
     def check_bars_offline(self, end: Snap) -> None:
         """C08 liquidity walk, C05 fill-or-kill deadline, C04 completeness - per (pair, bar), from the event log."""
-        ample = self.sc.get("class") in ("ample", "micro_c04")
+        ample = self.sc.get("class") in ("ample", "micro_c04", "micro_c04c")
         for a in self.anomalies:
             if "Not enough liquidity" in a:
                 self.v("C08", "liquidity_overdrawn_inside_exchange",
@@ -1442,14 +1470,16 @@ class Run:
         b, qs = m["pair"].split("/")
         buy = m["side"] == "buy"
         rem = dict(m.get("R", {}))
-        pf = (ZERO, ZERO, ZERO)
+        pf = (ZERO, ZERO)
+        lf: Dict[str, D] = {}
         for w2, oi in self.events[oid]:
             if w2 >= when:
                 break
-            fee = sum(oi.fees.values(), ZERO)
-            db, dq, df = oi.amount_filled - pf[0], oi.quote_amount_filled - pf[1], fee - pf[2]
-            pf = (oi.amount_filled, oi.quote_amount_filled, fee)
-            net = {b: (db if buy else -db), qs: ((-dq if buy else dq) - df)}
+            db, dq = oi.amount_filled - pf[0], oi.quote_amount_filled - pf[1]
+            dfee = {k: val - lf.get(k, ZERO) for k, val in oi.fees.items()}
+            pf = (oi.amount_filled, oi.quote_amount_filled)
+            lf = dict(oi.fees)
+            net = {b: (db if buy else -db) - dfee.get(b, ZERO), qs: (-dq if buy else dq) - dfee.get(qs, ZERO)}
             for sym, n in net.items():
                 if n < 0 and sym in rem:
                     rem[sym] = max(ZERO, rem[sym] + n)
